@@ -50,11 +50,18 @@ was delivered, and every block passed `ValidateBlock` on the state chain derived
 checkpoint. -/
 theorem gate_v2_sound (U : Univ) (cfg : Cfg) (q : Req) (r : BResp) (bs : List Nat)
     (h : gateBatch U cfg q r = .ok bs true) :
-    cfg.require ≤ q.baseHeight ∧ ∃ cp, r.cp = some cp ∧ cp.isV2 = true ∧ cp.onePayout = true ∧
+    cfg.require ≤ q.baseHeight ∧ ∃ cp, r.cp = some cp ∧ cp.isV2 = true ∧ cp.onePayout = true ∧ cp.noV1 = true ∧
       sameId U cp.blk q.base = true ∧ cp.commitOk = true ∧ (U cp.blk).orphan = true ∧ r.blocks = some bs ∧
       bs.length = q.hdrs.length ∧ sameId U (bs.getLastD 0) (q.hdrs.getLastD 0) = true ∧
       validateChain U cp.genuine cp.blk bs = true :=
   gateBatch_ok_true cfg q r bs h
+
+/-- (repaired defect) a checkpoint answer whose block carries a v1 transaction never gets as far
+as `ApplyBlock` (which would index the empty v1 supplement): the request is retried -/
+theorem checkpoint_with_v1_txns_rejected (U : Univ) (cfg : Cfg) (q : Req) (cp : CpResp) (bl : Option (List Nat))
+    (hh : cfg.require ≤ q.baseHeight) (hv1 : cp.noV1 = false) :
+    gateBatch U cfg q ⟨some cp, bl⟩ = .retry := by
+  simp [gateBatch, hh, hv1]
 
 /-- … and that is exactly the manager's pre-validation contract: under hash injectivity every
 block handed to `AddValidatedV2Blocks` is valid whenever its ancestry is. -/
@@ -71,7 +78,7 @@ theorem gate_v2_needs_binding :
       gateBatch U cfg q r = .ok [1] true ∧ (U 1).body = false := by
   refine ⟨fun i => if i = 0 then ⟨0, 0, 0, 1, 5, true, true, true, true, true, false⟩
                     else ⟨0, 1, 1, 2, 5, true, true, true, false, true, false⟩,
-    ⟨0, 100⟩, ⟨0, 0, [1]⟩, ⟨some ⟨0, true, true, true, false⟩, some [1]⟩, by decide, by decide⟩
+    ⟨0, 100⟩, ⟨0, 0, [1]⟩, ⟨some ⟨0, true, true, true, false, true⟩, some [1]⟩, by decide, by decide⟩
 
 /-- **relay gates**: a relayed header never touches the chain; a relayed outline reaches the
 manager only if its parent is known, it attaches to the tip, it has sufficient work and its
@@ -190,12 +197,12 @@ theorem rejected_batch_bans (U : Univ) (cfg : Cfg) (n : Node) (q : Req) (r : BRe
 right number of blocks ending in the right tip, one of which fails `ValidateBlock` on the
 genuine state chain, is answered with `ban`. -/
 theorem invalid_v2_block_bans (U : Univ) (cfg : Cfg) (n : Node) (q : Req) (cp : CpResp) (bs : List Nat)
-    (hh : cfg.require ≤ q.baseHeight) (h1 : cp.isV2 = true) (h2 : cp.onePayout = true)
+    (hh : cfg.require ≤ q.baseHeight) (h1 : cp.isV2 = true) (h2 : cp.onePayout = true) (h2' : cp.noV1 = true)
     (h3 : sameId U cp.blk q.base = true) (h4 : cp.commitOk = true) (h4' : (U cp.blk).orphan = true)
     (h5 : bs.length = q.hdrs.length) (h6 : sameId U (bs.getLastD 0) (q.hdrs.getLastD 0) = true)
     (hbad : validateChain U cp.genuine cp.blk bs = false) :
     (stepBatch U cfg n q ⟨some cp, some bs⟩).2 = .ban := by
-  simp only [stepBatch, gateBatch, hh, h1, h2, h3, h4, h4', h5, h6, hbad]; simp
+  simp only [stepBatch, gateBatch, hh, h1, h2, h2', h3, h4, h4', h5, h6, hbad]; simp
 
 /-- **misbehaviour ⇒ ban (3)**: below the require height, blocks that carry the validated
 header IDs but contain a block failing `ValidateOrphan` are answered with `ban`, at whatever
@@ -276,7 +283,7 @@ theorem gate_v2_gives_PreValidated (U : Univ) (nv : NoVariants U) (hU : WFH (toC
     Chain.PreValidated (toChain U) m bs := by
   obtain ⟨hl, hc⟩ := gate_v2_contract' nv hU hb cfg q r bs hg
   have hvb : VT (toChain U) q.base := inv_applied_VT hI _ _ rfl hbase
-  obtain ⟨_, cp, _, _, _, _, _, _, _, _, _, hvc⟩ := gateBatch_ok_true cfg q r bs hg
+  obtain ⟨_, cp, _, _, _, _, _, _, _, _, _, _, hvc⟩ := gateBatch_ok_true cfg q r bs hg
   constructor
   · intro b hbm
     obtain ⟨e1, e3⟩ := hextra b hbm
@@ -319,7 +326,7 @@ checkpoint path with block 2 as checkpoint and a made-up state that its commitme
 def fakeRound : List Ev :=
   [.batch ⟨0, 0, [1]⟩ ⟨none, some [1]⟩,
    .batch ⟨0, 0, [2]⟩ ⟨none, some [2]⟩,
-   .batch ⟨2, 1, [3]⟩ ⟨some ⟨2, true, true, true, false⟩, some [3]⟩]
+   .batch ⟨2, 1, [3]⟩ ⟨some ⟨2, true, true, true, false, true⟩, some [3]⟩]
 
 /-- **`Chain.Inv` is not preserved by the syncer under a Byzantine peer** (nor is it by the real
 code, which this model transcribes): after the exceptional round block 3 is stored with a
@@ -379,11 +386,11 @@ def exCfg : Cfg := ⟨2, 100⟩
 /-- honest sync of 1,2 (v1 path), then 3 through the checkpoint path: applied, tip 3 -/
 example : (run exU exCfg Node.init
     [.sync [.hdrs [1, 2] 1] [⟨none, some [1, 2]⟩],
-     .sync [.hdrs [3] 0] [⟨some ⟨2, true, true, true, true⟩, some [3]⟩]]).best = [3, 2, 1, 0] := by decide
+     .sync [.hdrs [3] 0] [⟨some ⟨2, true, true, true, true, true⟩, some [3]⟩]]).best = [3, 2, 1, 0] := by decide
 
 /-- the variant with the same ID and an invalid body is caught by `ValidateBlock` ⇒ ban, tip unchanged -/
 example : (step exU exCfg ⟨[2, 1, 0], [2, 1, 0], [2, 1, 0]⟩
-    (.sync [.hdrs [3] 0] [⟨some ⟨2, true, true, true, true⟩, some [4]⟩])) = (⟨[2, 1, 0], [2, 1, 0], [2, 1, 0]⟩, .ban) := by decide
+    (.sync [.hdrs [3] 0] [⟨some ⟨2, true, true, true, true, true⟩, some [4]⟩])) = (⟨[2, 1, 0], [2, 1, 0], [2, 1, 0]⟩, .ban) := by decide
 
 /-- a header-valid block with an invalid body delivered below the require height: stored, the
 reorg fails, rolled back ⇒ ban, tip unchanged -/
